@@ -739,3 +739,108 @@ Proof.
   - apply bytes_adv. lia.
   - apply adv_Sub. lia.
 Qed.
+
+(* ------------------------------------------------------------------ offsets and offset ids *)
+Lemma chk_add64_small dbg a b : a + b < two64 -> chk_add 64 dbg a b = Ok (a + b).
+Proof.
+  intros H. unfold chk_add. change (2 ^ 64) with two64.
+  assert (E : (a + b <? two64) = true) by lia. now rewrite E.
+Qed.
+Lemma chk_sub64_le dbg a b : b <= a -> chk_sub 64 dbg a b = Ok (a - b).
+Proof. intros H. unfold chk_sub. assert (E : (b <=? a) = true) by lia. now rewrite E. Qed.
+
+Lemma lookup_id_in dbg p l id :
+  p + l < two64 -> p <= id -> id <= p + l -> lookup_id_ptrs dbg p l id = Ok (Some (id - p)).
+Proof.
+  intros H1 H2 H3. unfold lookup_id_ptrs. rewrite chk_add64_small by exact H1. cbn [bind].
+  assert (E : ((p <=? id) && (id <=? p + l)) = true) by lia. rewrite E.
+  rewrite chk_sub64_le by exact H2. reflexivity.
+Qed.
+Lemma lookup_id_out dbg p l id :
+  p + l < two64 -> (id < p \/ p + l < id) -> lookup_id_ptrs dbg p l id = Ok None.
+Proof.
+  intros H1 H2. unfold lookup_id_ptrs. rewrite chk_add64_small by exact H1. cbn [bind].
+  assert (E : ((p <=? id) && (id <=? p + l)) = false) by lia. now rewrite E.
+Qed.
+Lemma lookup_id_some dbg p l id k :
+  lookup_id_ptrs dbg p l id = Ok (Some k) -> id = p + k /\ k <= l.
+Proof.
+  unfold lookup_id_ptrs, chk_add, chk_sub. change (2 ^ 64) with two64.
+  destruct (p + l <? two64) eqn:E0; cbn [bind].
+  - destruct ((p <=? id) && (id <=? p + l)) eqn:E; [|discriminate].
+    assert (E1 : (p <=? id) = true) by lia. rewrite E1. cbn [bind]. intros [= <-]. lia.
+  - destruct dbg; [discriminate|]. cbn [bind]. unfold wrapN. change (2 ^ 64) with two64.
+    destruct ((p <=? id) && (id <=? (p + l) mod two64)) eqn:E; [|discriminate].
+    assert (E1 : (p <=? id) = true) by lia. rewrite E1. cbn [bind]. intros [= <-].
+    assert ((p + l) mod two64 <= p + l) by (apply N.mod_le; unfold two64; lia). lia.
+Qed.
+
+Lemma ptr_bound r c : Inv r -> wf_alloc r -> Sub r c -> ptr c + len c <= ptr r + len r /\ ptr r + len r < two64.
+Proof.
+  unfold Inv, wf_alloc, Sub, ptr. intros HI HW (H1 & H2 & H3 & H4). rewrite H2. lia.
+Qed.
+
+Lemma offset_ids_lemma dbg root c :
+  Inv root -> wf_alloc root -> Sub root c ->
+  (* the id of any reader inside the section maps back to its position ... *)
+  er_lookup_offset_id dbg root (er_offset_id c) = Ok (Some (off c - off root)) /\
+  (* ... so does the id of its end ... *)
+  er_lookup_offset_id dbg root (er_offset_id c + len c) = Ok (Some (off c + len c - off root)) /\
+  (* ... an id is accepted only if it is an address of the section, and names that position ... *)
+  (forall id k, er_lookup_offset_id dbg root id = Ok (Some k) ->
+                id = er_offset_id root + k /\ k <= len root) /\
+  (* ... and everything outside the section is rejected *)
+  (forall id, id < er_offset_id root \/ er_offset_id root + len root < id ->
+              er_lookup_offset_id dbg root id = Ok None).
+Proof.
+  intros HI HW HS. pose proof (ptr_bound _ _ HI HW HS) as [Hb1 Hb2].
+  unfold er_lookup_offset_id, er_offset_id.
+  assert (Hp : ptr c = ptr root + (off c - off root)).
+  { destruct HS as (_ & H2 & H3 & _). unfold ptr. rewrite H2. lia. }
+  repeat split.
+  - rewrite lookup_id_in; try lia. f_equal. f_equal. lia.
+  - rewrite lookup_id_in; try lia. f_equal. f_equal. destruct HS as (_ & _ & H3 & _). lia.
+  - apply (lookup_id_some dbg _ _ _ _ H).
+  - apply (lookup_id_some dbg _ _ _ _ H).
+  - intros id Hid. apply lookup_id_out; [lia | exact Hid].
+Qed.
+
+Lemma offset_from_ptrs_in dbg p pl bp bl :
+  bp + bl < two64 -> bp <= p -> p + pl <= bp + bl -> offset_from_ptrs dbg p pl bp bl = Ok (p - bp).
+Proof.
+  intros H1 H2 H3. unfold offset_from_ptrs.
+  assert (E1 : (bp <=? p) = true) by lia. rewrite E1. cbn [negb]. rewrite andb_false_r.
+  destruct dbg.
+  - rewrite !chk_add64_small by lia. cbn [bind].
+    assert (E2 : (p + pl <=? bp + bl) = true) by lia. rewrite E2. cbn [negb andb].
+    now apply chk_sub64_le.
+  - cbn [bind andb]. now apply chk_sub64_le.
+Qed.
+
+Lemma offset_from_lemma dbg root c :
+  Inv root -> wf_alloc root -> Sub root c ->
+  er_offset_from dbg c root = Ok (off c - off root).
+Proof.
+  intros HI HW HS. pose proof (ptr_bound _ _ HI HW HS) as [Hb1 Hb2].
+  unfold er_offset_from.
+  assert (Hp : ptr c = ptr root + (off c - off root)).
+  { destruct HS as (_ & H2 & H3 & _). unfold ptr. rewrite H2. lia. }
+  rewrite offset_from_ptrs_in; try lia. f_equal. lia.
+Qed.
+
+(* every reader of every history maps back to its position through the section's lookup *)
+Lemma history_offset_ids_lemma dbg be b a (ops : list pop) :
+  a + N.of_nat (length b) < two64 ->
+  Forall (fun c => er_lookup_offset_id dbg (new b a) (er_offset_id c) = Ok (Some (off c)) /\
+                   er_offset_from dbg c (new b a) = Ok (off c))
+         (fst (prun dbg be (new b a) [new b a] ops)).
+Proof.
+  intros HW.
+  destruct (prun_Sub dbg be (new b a) (new b a) ops [new b a]) as [H1 _].
+  { constructor; [apply Sub_refl | constructor]. }
+  eapply Forall_impl; [|exact H1]. intros c HS.
+  assert (HWr : wf_alloc (new b a)) by exact HW.
+  destruct (offset_ids_lemma dbg (new b a) c (new_Inv b a) HWr HS) as (E1 & _).
+  rewrite E1, (offset_from_lemma dbg (new b a) c (new_Inv b a) HWr HS).
+  cbn [new off]. rewrite N.sub_0_r. split; reflexivity.
+Qed.
